@@ -11,6 +11,9 @@ Ghost state: every table of the net carries a version; `drop` creates a new vers
   * reindex_elements(net, T, lookup): a reference (switch.element with the switch code of T; measurement.element with element_type T;
     poly/pwl cost element with et T) to an old index i becomes lookup[i], every other reference is unchanged -- for the generic row of
     the referencing table and every T in line / trafo / trafo3w (switches), + gen, load, sgen ... (costs).
+
+Added later: drop_elements_simple also drops measurements and cost rows of the dropped elements (the pinned code did not: repaired);
+_select_cost_df keeps a cost row iff its element is in the subnet's table of the row's own element type (run_select_cost).
 """
 from __future__ import annotations
 
